@@ -90,6 +90,9 @@ class DirectFilter(object):
     def add_region(self, reg):
         self.state.addRegion(make_region(reg))
 
+    def delete_region(self, region_id):
+        self.state.deleteRegion(region_id)
+
 
 class AtModel(object):
     """Independent evaluation of the @-command action table."""
@@ -217,6 +220,15 @@ def run(case, filter_factory=DirectFilter, stop_on_exception=True, observer=None
             regions.append(dict(item[1]))
             try:
                 flt.add_region(item[1])
+            except Exception as exc:  # pylint: disable=broad-except
+                it.exception = "%s: %s" % (type(exc).__name__, exc)
+            it.regions = list(regions)
+        elif it.kind == "unreg":
+            # ["unreg", id]: the user deletes a region mid-print (allowed when shrinking is permitted); an open episode
+            # simply continues until the next move whose destination is outside every remaining region
+            regions[:] = [r for r in regions if r.get("id") != item[1]]
+            try:
+                flt.delete_region(item[1])
             except Exception as exc:  # pylint: disable=broad-except
                 it.exception = "%s: %s" % (type(exc).__name__, exc)
             it.regions = list(regions)
